@@ -58,7 +58,7 @@ def sstrCase (j : Json) : Except String Json := do
     let rd (t : Str) : Option SStr := if quoted then decodeQuoted kk q t else decode kk t
     let implText ← optStr c "impl"
     pure (Json.mkObj [
-      ("wf", Json.bool (convWf kk && (!quoted || quoteWf kk q))),
+      ("wf", Json.bool (convWf kk && (!quoted || (quoteWf kk q && quoteTailOk kk q)))),
       ("escInSet", Json.bool (match kk.esc with | some [e] => kk.escapedSet.contains e | _ => false)),
       ("want", sstrToJson (filtered kk s)),
       ("model", match model with | .ok t => strToJson t | .error e => Json.mkObj [("err", errToJson e)]),
